@@ -241,3 +241,167 @@ func c16ProxyHistory(c *Ctx) (evals int64, skipped string) {
 	}
 	return evals, ""
 }
+
+// c16HandlerHistory drives the real content-script handler of the proxy
+// (Server.buildContentScript, the consumer of the option the injected tag
+// carries) without a network: every ordered k-tuple of (hostname, option)
+// pages, every interleaving of the events "the handler builds the response of
+// page i" and "the response of page i is written out" (build before write-out,
+// as gomitmproxy sends a response after the handler returned, while other
+// connections are being handled).  Every body must be the one the same page
+// gets when it is served alone, and its Content-Length must be its length.
+func c16HandlerHistory(c *Ctx) (evals int64) {
+	log.SetOutput(io.Discard)
+	const list = "##.generic-banner\n##.generic-banner-2\nexample.org##.specific-banner\nother.org##.other-specific-banner\n" +
+		"example.org#%#window.__a = 1;\n#%#window.__g = 1;\nother.org#$#.x { color: red }\n@@||example.org^$elemhide\n"
+	dir := os.TempDir()
+	listPath := filepath.Join(dir, fmt.Sprintf("c16-handler-%d.txt", os.Getpid()))
+	if err := os.WriteFile(listPath, []byte(list), 0o600); err != nil {
+		panic(HarnessError(err.Error()))
+	}
+	defer os.Remove(listPath)
+	type page struct {
+		host string
+		opt  uint64
+	}
+	var pages []page
+	opts := []uint64{7, 4, 6, 1, 3}
+	if c.Thorough() {
+		opts = []uint64{1, 2, 3, 4, 5, 6, 7}
+	}
+	for _, h := range []string{"example.org", "other.org"} {
+		for _, o := range opts {
+			pages = append(pages, page{h, o})
+		}
+	}
+	read := func(res *http.Response) string {
+		if res == nil {
+			return "<nil response>"
+		}
+		b, err := io.ReadAll(res.Body)
+		if err != nil {
+			return "<read error: " + err.Error() + ">"
+		}
+		if res.ContentLength != int64(len(b)) {
+			return fmt.Sprintf("<Content-Length %d for a body of %d bytes>", res.ContentLength, len(b))
+		}
+		return fmt.Sprintf("%d %s|", res.StatusCode, res.Header.Get("Content-Encoding")) + string(b)
+	}
+	for _, compress := range []bool{false, true} {
+		srv, err := proxy.NewServer(proxy.Config{
+			ProxyConfig:           gomitmproxy.Config{ListenAddr: &net.TCPAddr{IP: net.IPv4(127, 0, 0, 1), Port: 0}},
+			FiltersPaths:          map[int]string{1: listPath},
+			InjectionHost:         "injections.verif.test",
+			CompressContentScript: compress,
+		})
+		if err != nil {
+			panic(HarnessError("proxy.NewServer: " + err.Error()))
+		}
+		build := func(p page) *http.Response {
+			res, err := proxy.VerifContentScript(srv, p.host, p.opt)
+			if err != nil {
+				panic(HarnessError(err.Error()))
+			}
+			return res
+		}
+		alone := map[page]string{}
+		for _, p := range pages {
+			alone[p] = read(build(p))
+			evals++
+			if again := read(build(p)); again != alone[p] {
+				c.Run.Violate(ev.Violation{Pred: "content-script-is-the-one-of-its-page", Sig: map[string]any{"host": p.host, "option": p.opt, "compress": compress, "history": "twice"},
+					What:   fmt.Sprintf("content script of %s option=%d (compress=%v) differs between two sequential requests", p.host, p.opt, compress),
+					Replay: map[string]any{"mods": []string{}, "handler_history": true}})
+			}
+		}
+		for _, k := range []int{2, 3} {
+			if k == 3 && !c.Thorough() {
+				// quick: triples over a reduced page set
+			}
+			ps := pages
+			if k == 3 {
+				ps = nil
+				for _, p := range pages {
+					if p.opt == 7 || p.opt == 4 || (c.Thorough() && (p.opt == 6 || p.opt == 1)) {
+						ps = append(ps, p)
+					}
+				}
+			}
+			// all interleavings of k build events and k write-out events, build i before write-out i
+			var orders [][]int // event e<k: build e; e>=k: write-out e-k
+			var gen func(cur []int, built, written int)
+			gen = func(cur []int, built, written int) {
+				if len(cur) == 2*k {
+					orders = append(orders, append([]int{}, cur...))
+					return
+				}
+				for e := 0; e < 2*k; e++ {
+					bit := 1 << e
+					if e < k {
+						// builds in index order (tuples are ordered already)
+						if built&bit != 0 || (e > 0 && built&(1<<(e-1)) == 0) {
+							continue
+						}
+						gen(append(cur, e), built|bit, written)
+					} else {
+						if written&(1<<(e-k)) != 0 || built&(1<<(e-k)) == 0 {
+							continue
+						}
+						gen(append(cur, e), built, written|1<<(e-k))
+					}
+				}
+			}
+			gen(nil, 0, 0)
+			idx := make([]int, k)
+			for {
+				tuple := make([]page, k)
+				for i := range idx {
+					tuple[i] = ps[idx[i]]
+				}
+				for _, order := range orders {
+					res := make([]*http.Response, k)
+					for _, e := range order {
+						if e < k {
+							res[e] = build(tuple[e])
+							continue
+						}
+						i := e - k
+						evals++
+						if got := read(res[i]); got != alone[tuple[i]] {
+							c.Run.Violate(ev.Violation{Pred: "content-script-is-the-one-of-its-page", Sig: map[string]any{"host": tuple[i].host, "option": tuple[i].opt, "compress": compress, "pages": fmt.Sprint(tuple), "order": fmt.Sprint(order)},
+								What: fmt.Sprintf("pages %v, events %v (e<%d: handler builds response e; e>=%d: response e-%d is written out), compress=%v: the content script written out for %s option=%d is not the one this page gets when served alone (%d bytes, alone %d bytes; first difference at byte %d)",
+									tuple, order, k, k, k, compress, tuple[i].host, tuple[i].opt, len(got), len(alone[tuple[i]]), firstDiff(got, alone[tuple[i]])),
+								Replay: map[string]any{"mods": []string{}, "handler_history": true}})
+						}
+					}
+				}
+				j := k - 1
+				for ; j >= 0; j-- {
+					idx[j]++
+					if idx[j] < len(ps) {
+						break
+					}
+					idx[j] = 0
+				}
+				if j < 0 {
+					break
+				}
+			}
+			c.Run.Set(fmt.Sprintf("handler_history_k%d_compress_%v", k, compress), fmt.Sprintf("%d pages^%d x %d interleavings", len(ps), k, len(orders)))
+		}
+	}
+	return evals
+}
+
+func firstDiff(a, b string) int {
+	n := len(a)
+	if len(b) < n {
+		n = len(b)
+	}
+	for i := 0; i < n; i++ {
+		if a[i] != b[i] {
+			return i
+		}
+	}
+	return n
+}
